@@ -53,6 +53,9 @@ def run_digest(tr):
         h.update(_b(obj.feed_used.kcals))
         h.update(_b(obj.grass_used.kcals))
     parts["herd_trajectories"] = h.hexdigest()[:16]
+    if getattr(tr, "saved_files", None) is not None:
+        # the csv files written for the web interface (save_all_results): names and contents
+        parts["saved_files"] = hashlib.sha256(repr(sorted(tr.saved_files.items())).encode()).hexdigest()[:16] + ":%d" % len(tr.saved_files)
     if getattr(tr, "returned_countries", None) is not None:
         # which countries the call handed back (a run hands back its own selection, whatever the runner served before)
         parts["returned_countries"] = ",".join(tr.returned_countries)
